@@ -147,11 +147,11 @@ def corpus(repo, big=True):
             sz = os.path.getsize(f)
         except OSError:
             continue
-        key = (b, sz)
+        key = b
         if key in seen:
             continue
         seen.add(key)
-        if not big and sz > 20000:
+        if not big and sz > 12000:
             continue
         out.append(f)
     return out
